@@ -331,7 +331,7 @@ func checkReaders(b *hclwrite.Body, mb *mBody, path string, out *[]oracleFail) {
 		}
 	}
 	for _, n := range []string{"absent_name", "zz9"} {
-		if !mb.has(n) && b.GetAttribute(n) != nil && !mb.cleared {
+		if !mb.has(n) && b.GetAttribute(n) != nil {
 			add("reader-disagrees", "GetAttribute(%q) != nil for an absent name", n)
 		}
 	}
